@@ -108,11 +108,12 @@ def exec_CV(t):
 
 
 def exec_CH(t):
-    ss, ns, fs = t[0] == 's', int(t[1]), int(t[2])
-    codes = [int(c) for c in parse_list(t[3])]
-    steps = t[4:]
+    mode = t[0]
+    ss, ns, fs = t[1] == 's', int(t[2]), int(t[3])
+    codes = [int(c) for c in parse_list(t[4])]
+    steps = t[5:]
     try:
-        cur = mk(codes, ss, ns, fs)
+        cur = make_src(codes, '()' if len(codes) == 1 else '(%d,)' % len(codes), ss, ns, fs, mode)
         for i in range(0, len(steps), 6):
             route, sd, nd, fd, r, o = steps[i:i + 6]
             cur = convert(route, cur, sd == 's', int(nd), int(fd), r, o)
@@ -167,16 +168,28 @@ def generate(tier, rng):
             continue
         yield 'CV %s %s %s %s %s %s %s %s' % (rng.choice(ROUTES), rng.choice(['raw', 'value']), shape_tok(sh, k), fm(x), fm(d),
                                               rng.choice(ROUNDS), rng.choice(OVFS), L(codes))
-    for _ in range(600 if tier == 'quick' else 15000):
-        x = G.rand_format(rng, max_word=24, fmin=-2, fextra=2)
+    for _ in range(1500 if tier == 'quick' else 30000):
+        mode = rng.choice(['raw', 'value', 'value'])
+        if mode == 'value':
+            # an integer-born source (vdtype=int) that acquires fraction bits later in the chain
+            s0 = rng.random() < 0.5
+            n0 = rng.randint(2 + int(s0), 16)
+            x = (s0, n0, rng.choice([0, 0, -1, -2]))
+        else:
+            x = G.rand_format(rng, max_word=24, fmin=-2, fextra=2)
         lo, hi = lims(x[0], x[1])
         k = rng.choice([1, 3])
-        codes = [rng.randint(lo, hi) for _ in range(k)]
+        codes = [rng.choice([lo, hi, rng.randint(lo, hi), rng.randint(lo, hi)]) for _ in range(k)]
         steps = []
+        cur_f = x[2]
         for _ in range(rng.randint(2, 6)):
             d = G.rand_format(rng, max_word=24, fmin=-2, fextra=2)
+            if rng.random() < 0.5:
+                # stay close: a few more / fewer fraction bits, so that values keep fractional parts
+                d = (d[0], d[1], max(-2, min(d[1] + 2, cur_f + rng.choice([-3, -2, -1, 1, 2, 3, 6]))))
+            cur_f = d[2]
             steps.append('%s %s %s %s' % (rng.choice([r_ for r_ in ROUTES if r_ != 'setitem' or k == 1]), fm(d), rng.choice(ROUNDS), rng.choice(OVFS)))
-        yield 'CH %s %s %s' % (fm(x), L(codes), ' '.join(steps))
+        yield 'CH %s %s %s %s' % (mode, fm(x), L(codes), ' '.join(steps))
 
 
 def nontrivial(full_line, model):
@@ -198,5 +211,5 @@ def debug_class(t):
 
 def stats(verdicts):
     return base.generic_stats(verdicts, lambda t: (['route:' + t[1], 'src:' + t[2], 'shape:' + ('scalar' if t[3] == '()' else '2d' if is2d(t[3]) else '1d'), 'round:' + t[10], 'ovf:' + t[11]] if t[0] == 'CV' else ['op:CH']),
-                              lambda t: len(parse_list(t[12])) if t[0] == 'CV' else len(parse_list(t[4])),
+                              lambda t: len(parse_list(t[12])) if t[0] == 'CV' else len(parse_list(t[5])),
                               ['CV: all codes of format pairs with n_word<=3 (quick, 12% of pair x route combinations) / <=5 (thorough, 50%), n_frac -2..n_word+2'])
